@@ -58,6 +58,72 @@ def adapter_keys(func):
     return req, opt, odd
 
 
+def call_keywords(func, call):
+    """keywords of a call with `**name` expanded when `name` is a local
+    bound once to a dict literal with constant string keys that is not
+    changed afterwards (item stores with constant keys are added).  An
+    unexpandable `**x` is kept as a keyword with arg None."""
+    out = []
+    for k in call.keywords:
+        if k.arg is not None:
+            out.append(k)
+            continue
+        exp = None
+        if isinstance(k.value, ast.Dict):
+            dct = k.value
+            nm = None
+        elif isinstance(k.value, ast.Name):
+            nm = k.value.id
+            defs = [n for n in walk_no_nested(func.node)
+                    if isinstance(n, ast.Assign) and len(n.targets) == 1 and
+                    isinstance(n.targets[0], ast.Name) and
+                    n.targets[0].id == nm]
+            dct = defs[0].value if len(defs) == 1 and \
+                isinstance(defs[0].value, ast.Dict) else None
+        else:
+            dct, nm = None, None
+        if dct is not None and all(
+                kk is not None and const_str(kk) is not None
+                for kk in dct.keys):
+            exp = [ast.copy_location(
+                ast.keyword(arg=const_str(kk), value=vv), vv)
+                for kk, vv in zip(dct.keys, dct.values)]
+            if nm is not None:
+                for n in walk_no_nested(func.node):
+                    # other uses that can change the dict
+                    if isinstance(n, ast.Subscript) and \
+                            isinstance(n.value, ast.Name) and \
+                            n.value.id == nm and \
+                            isinstance(n.ctx, (ast.Store, ast.Del)):
+                        key = const_str(n.slice)
+                        par = None
+                        if key is None or isinstance(n.ctx, ast.Del):
+                            exp = None
+                            break
+                        for a in walk_no_nested(func.node):
+                            if isinstance(a, ast.Assign) and \
+                                    any(t is n for t in a.targets):
+                                par = a
+                        if par is None:
+                            exp = None
+                            break
+                        exp.append(ast.copy_location(
+                            ast.keyword(arg=key, value=par.value), par))
+                    elif isinstance(n, ast.Call) and \
+                            isinstance(n.func, ast.Attribute) and \
+                            isinstance(n.func.value, ast.Name) and \
+                            n.func.value.id == nm and \
+                            n.func.attr in ('update', 'pop', 'popitem',
+                                            'clear', 'setdefault'):
+                        exp = None
+                        break
+        if exp is None:
+            out.append(k)
+        else:
+            out += exp
+    return out
+
+
 def forwarded_names(func):
     """[(keyword passed to the provider, key read, node)] for
     provider-call keywords whose value reads params."""
@@ -162,7 +228,7 @@ def run(repo, rep, tier):
         r1.functions.add(ad.fq)
         kc = {}
         for c in op.envelope_calls:
-            for k in c.keywords:
+            for k in call_keywords(f, c):
                 if k.arg is None:
                     rep.finding(r1, f.qualname, norm(k.value), 'star-kwargs',
                                 OPS, c.lineno, '**kwargs passed to '
@@ -444,7 +510,7 @@ def run(repo, rep, tier):
                     if isinstance(a, ast.Name):
                         validated.add(a.id)
         for c in op.envelope_calls:
-            for k in c.keywords:
+            for k in call_keywords(f, c):
                 if k.arg is None or k.arg in CONTROL_KW or \
                         k.arg == 'namespace':
                     continue
